@@ -31,7 +31,7 @@ Numerics == {Chars(x) : x \in {"0", "1", "007", "42", "4294967295", "4294967296"
                                "00000000000000000000000000000000000001"}}
             \cup {<<"ARDIGIT">>, <<"1", "ARDIGIT">>, <<"ARDIGIT", "f">>, <<"x", "ARDIGIT">>, <<"1", ".", "FWDIGIT">>, <<"-", "ARDIGIT">>}
 
-Specials == {Chars("\"abc\""), Chars("\"a/*b*/c\""), Chars("\"unterminated"), Chars("\"a") \o <<"LF">> \o Chars("b\""),
+Specials == {Chars("\"C:\\\""), Chars("\"a\\\"b\""), Chars("\"\\\\\""), Chars("\"\\n\""), Chars("\"abc\""), Chars("\"a/*b*/c\""), Chars("\"unterminated"), Chars("\"a") \o <<"LF">> \o Chars("b\""),
              Chars("\"") \o <<"EACUTE", "CJK", "EMOJI">> \o Chars("\""), Chars("/* c */x"), Chars("/* \"q\" */x"), Chars("/* open"),
              Chars("/*/ x */y"), Chars("/**/x"), Chars("/***/x"), Chars("// c") \o <<"LF">> \o Chars("x"), Chars("// c"),
              Chars("x// /* c") \o <<"CR", "LF">>, Chars("x/y"), Chars("x*y"), Chars("@A"), Chars("@"), Chars("@1"), Chars("@A@B"),
